@@ -86,10 +86,139 @@ MUTANTS = {
                    "refused", "another string method: not an atom"),
     "pool-missing-else": ("pool", P, [('        else:\n            return "shared"\n\n    @classmethod\n    def show(', '\n    @classmethod\n    def show(')],
                           "refused", "a path without return (None)"),
+    # ---- TestNode.should_rerun / shared_filtered_results (C10, shouldRerun_matches_source, filteredResults_matches_source)
+    "rules-checks-swapped": ("rules", N, [('[(rerun_status, "rerun"), (stop_status, "stop")]', '[(stop_status, "stop"), (rerun_status, "rerun")]')],
+                             "proof-breaks", "stop statuses validated before rerun statuses (another error wins)"),
+    "rules-negative-or-zero": ("rules", N, [("        if max_tries < 0:\n            raise ValueError", "        if max_tries <= 0:\n            raise ValueError")],
+                               "proof-breaks", "max_tries=0 rejected"),
+    "rules-off-by-one": ("rules", N, [("max_tries - total_runs", "max_tries - total_runs - 1")], "proof-breaks", "one rerun less"),
+    "rules-ge-for-gt": ("rules", N, [("        if reruns_left > 0:", "        if reruns_left >= 0:")], "proof-breaks", "rerun with nothing left"),
+    "rules-stop-difference": ("rules", N, [("{*stop_status} & {*test_statuses}", "{*stop_status} - {*test_statuses}")],
+                              "proof-breaks", "stop when a stop status was NOT seen"),
+    "rules-violated-swapped": ("rules", N, [("{*test_statuses} - {*rerun_status}", "{*rerun_status} - {*test_statuses}")],
+                               "proof-breaks", "set difference the other way round"),
+    "rules-replay-default": ("rules", N, [('"max_tries", 2 if self.params.get("replay") else 1', '"max_tries", 3 if self.params.get("replay") else 1')],
+                             "proof-breaks", "another default number of tries under replay"),
+    "rules-lower-dropped": ("rules", N, [('            test_statuses = [r["status"].lower() for r in self.shared_results]', '            test_statuses = [r["status"] for r in self.shared_results]')],
+                            "proof-breaks", "statuses of stateless nodes compared without lower()"),
+    "rules-tries-after-statuses": ("rules", N, [('        if max_tries < 0:\n            raise ValueError("Number of max_tries cannot be less than zero")\n', ''),
+                                                ('        # the runs total also considers', '        if max_tries < 0:\n            raise ValueError("Number of max_tries cannot be less than zero")\n        # the runs total also considers')],
+                                   "proof-breaks", "negative max_tries only rejected after the status tests (a stop status hides the error)"),
+    "rules-ne-for-gt": ("rules", N, [("        if len(rerun_statuses_violated) > 0:", "        if len(rerun_statuses_violated) != 0:")],
+                        "still-proves", "semantics preserving: != 0 for > 0 on a size"),
+    "rules-log-message": ("rules", N, [('f"Should not rerun {self}"', 'f"Will not rerun {self} any more"')], "still-proves", "a log message changed"),
+    "rules-pinned-body": ("rules", N, [("self.started_worker = old_started_worker or worker", "self.started_worker = worker or old_started_worker")],
+                          "refused", "the pinned body of the stateful branch changed"),
+    "rules-exception-message": ("rules", N, [('f"Worker {worker.id} should not consider rerunning {self}"', 'f"Foreign worker {worker.id} for {self}"')],
+                                "refused", "an exception the specification does not know"),
+    "rules-side-effect": ("rules", N, [('        stop_status = self.params.get_list("stop_status", [])\n', '        stop_status = self.params.get_list("stop_status", [])\n        self.params["max_tries"] = "1"\n')],
+                          "refused", "a store into the parameters"),
+    "rules-continue": ("rules", N, [("            if len(disallowed_status) > 0:\n                raise ValueError(", "            if len(disallowed_status) == 0:\n                continue\n            else:\n                raise ValueError(")],
+                       "refused", "continue in the unrolled loop"),
+    "filtered-operands-swapped": ("rules", N, [('            if scope_filter in result["name"]:', '            if result["name"] in scope_filter:')],
+                                  "proof-breaks", "substring test the other way round"),
+    "filtered-scope-inverted": ("rules", N, [('            self.started_worker\n            and "swarm" not in self.params["pool_scope"]\n            and self.params.get("nets_spawner") == "lxc"\n        ):\n            # has separate results',
+                                              '            self.started_worker\n            and "swarm" in self.params["pool_scope"]\n            and self.params.get("nets_spawner") == "lxc"\n        ):\n            # has separate results')],
+                                "proof-breaks", "swarm scope test inverted in shared_filtered_results"),
+    "filtered-separator": ("rules", N, [('self.started_worker.swarm_id + "." + self.started_worker.id', 'self.started_worker.swarm_id + "-" + self.started_worker.id')],
+                           "proof-breaks", "another separator in the per-worker filter"),
+    "filtered-prepend": ("rules", N, [("                results += [result]", "                results = [result] + results")],
+                         "refused", "results collected in reverse order (list concatenation outside the subset)"),
+    # ---- TestNode.is_occupied (C04, isOccupied_matches_source)
+    "occupied-floor-zero": ("scope", N, [("return self.is_started(worker, max(max_concurrent_tries, 1))", "return self.is_started(worker, max(max_concurrent_tries, 0))")],
+                            "proof-breaks", "threshold 0 allowed"),
+    "occupied-default-chain": ("scope", N, [('"max_concurrent_tries", self.params.get_numeric("max_tries", 1)\n', '"max_concurrent_tries", 1\n')],
+                               "proof-breaks", "max_tries no longer the default of max_concurrent_tries"),
+    "occupied-min": ("scope", N, [("return self.is_started(worker, max(max_concurrent_tries, 1))", "return self.is_started(worker, min(max_concurrent_tries, 1))")],
+                     "proof-breaks", "min for max"),
+    "occupied-finished": ("scope", N, [("return self.is_started(worker, max(max_concurrent_tries, 1))", "return self.is_finished(worker, max(max_concurrent_tries, 1))")],
+                          "refused", "another counting function: not an atom"),
+    # ---- get_sources.proximity (C13, proximity_matches_source)
+    "proximity-weights-swapped": ("pool", P, [("                score += 1000\n", "                score += 100\n"), ("                score += 100\n            if params[\"swarm_pool\"]", "                score += 1000\n            if params[\"swarm_pool\"]")],
+                                  "proof-breaks", "host weighs more than gateway"),
+    "proximity-no-else": ("pool", P, [("                score += 10\n            else:\n                score += 1\n", "                score += 10\n")],
+                          "proof-breaks", "other paths get no point"),
+    "proximity-host-ne": ("pool", P, [('            if params["nets_host"] == source_params["nets_host"]:\n                score += 100', '            if params["nets_host"] != source_params["nets_host"]:\n                score += 100')],
+                          "proof-breaks", "host comparison inverted in the sort key"),
+    "proximity-float": ("pool", P, [("            score = 0\n", "            score = 0.5\n")], "refused", "a float score"),
+    # ---- TransferOps (C14, *_matches_source)
+    "transfer-download-direction": ("transfer", P, [("            shutil.copy(pool_path, cache_path)\n", "            shutil.copy(cache_path, pool_path)\n")],
+                                    "proof-breaks", "download copies from the cache to the pool"),
+    "transfer-upload-no-skip": ("transfer", P, [('                logging.info(f"Skip upload of an already available {cache_path}")\n                return\n', '                logging.info(f"Skip upload of an already available {cache_path}")\n')],
+                                "proof-breaks", "upload copies although the comparison said equal (SameFileError / needless copy)"),
+    "transfer-download-negated": ("transfer", P, [("            if TransferOps.compare_local(cache_path, pool_path, params):\n                logging.info(f\"Skip download", "            if not TransferOps.compare_local(cache_path, pool_path, params):\n                logging.info(f\"Skip download")],
+                                  "proof-breaks", "download skipped when the files DIFFER"),
+    "transfer-hash-limit": ("transfer", P, [('local_hash = crypto.hash_file(cache_path, 1048576, "md5")\n        else:\n            local_hash = ""\n        if os.path.exists(pool_path):', 'local_hash = crypto.hash_file(cache_path, 524288, "md5")\n        else:\n            local_hash = ""\n        if os.path.exists(pool_path):')],
+                            "proof-breaks", "cache hashed over another prefix than the pool"),
+    "transfer-compare-missing": ("transfer", P, [('        if os.path.exists(pool_path):\n            remote_hash = crypto.hash_file(pool_path, 1048576, "md5")\n        else:\n            remote_hash = ""',
+                                                  '        if os.path.exists(pool_path):\n            remote_hash = crypto.hash_file(pool_path, 1048576, "md5")\n        else:\n            remote_hash = local_hash')],
+                                 "proof-breaks", "a missing pool file compares equal to anything"),
+    "transfer-link-clobbers": ("transfer", P, [("            if not os.path.islink(cache_path) and os.path.exists(cache_path):\n                raise RuntimeError(", "            if os.path.islink(cache_path) and os.path.exists(cache_path):\n                raise RuntimeError(")],
+                               "proof-breaks", "real data no longer protected from being replaced by a link"),
+    "transfer-link-no-unlink": ("transfer", P, [("            if os.path.islink(cache_path):\n                os.unlink(cache_path)\n", "")],
+                                "proof-breaks", "an existing link is not removed before linking (FileExistsError)"),
+    "transfer-link-realpath": ("transfer", P, [("return os.path.realpath(cache_path) == pool_path", "return os.path.realpath(cache_path) != pool_path")],
+                               "proof-breaks", "compare_link inverted for links"),
+    "transfer-upload-link-allowed": ("transfer", P, [('        if os.path.islink(cache_path):\n            raise ValueError("Cannot upload a symlink to its destination")\n        else:\n            TransferOps.upload_local(cache_path, pool_path, params)',
+                                                      '        TransferOps.upload_local(cache_path, pool_path, params)')],
+                                     "refused", "links uploaded (the declared exception is no longer raised)"),
+    "transfer-delete-cache": ("transfer", P, [("        with image_lock(pool_path, update_timeout) as lock:\n            os.unlink(pool_path)", "        with image_lock(pool_path, update_timeout) as lock:\n            os.unlink(pool_path + \".lock\")")],
+                              "proof-breaks", "delete removes the lock file instead of the pool file"),
+    "transfer-no-lock": ("transfer", P, [("        with image_lock(pool_path, update_timeout) as lock:\n            os.unlink(pool_path)", "        if update_timeout:\n            os.unlink(pool_path)")],
+                         "refused", "the critical section of delete is no longer under image_lock (truthiness of an opaque value)"),
+    "transfer-move": ("transfer", P, [("            shutil.copy(pool_path, cache_path)\n", "            shutil.move(pool_path, cache_path)\n")],
+                      "refused", "a file-system call that is not an atom"),
+    # ---- TestNode.default_clean_decision (C05, cleanDecision_matches_source)
+    "clean-all-for-any": ("clean", N, [("            if is_reversible:\n                break\n        else:\n            is_reversible = False", "            if not is_reversible:\n                break\n        else:\n            is_reversible = False")],
+                          "refused", "the flag loop no longer has the shape of `any`"),
+    "clean-and-for-or": ("clean", N, [("            is_reversible |= (", "            is_reversible &= (")],
+                         "refused", "both parameters must ask for removal (`&=` is not the flag pattern)"),
+    "clean-mode-letter": ("clean", N, [('object_params.get("unset_mode_vms", object_params["unset_mode"])[0]\n                == "f"', 'object_params.get("unset_mode_vms", object_params["unset_mode"])[0]\n                == "r"')],
+                          "proof-breaks", "vms count as reversible when their mode starts with r"),
+    "clean-not-dropped": ("clean", N, [("        if not is_reversible:\n            return True", "        if is_reversible:\n            return True")],
+                          "proof-breaks", "reversible nodes cleaned at once, the others through the loop"),
+    "clean-flat-cleans": ("clean", N, [('            logging.debug(f"Should not clean a flat node {self}")\n            return False', '            logging.debug(f"Should not clean a flat node {self}")\n            return True')],
+                          "proof-breaks", "flat nodes cleaned"),
+    "clean-foreign-worker-tolerated": ("clean", N, [('            raise RuntimeError(f"Worker {worker.id} should not try to clean {self}")', '            return False')],
+                                       "refused", "the declared RuntimeError is no longer raised"),
+    "clean-door-changed": ("clean", N, [("            return self.is_finished(worker, -1)\n\n    @classmethod\n    def prefix_priority", "            return self.is_finished(worker, 1)\n\n    @classmethod\n    def prefix_priority")],
+                           "refused", "the pinned loop over the involved workers changed"),
+    "clean-default-key": ("clean", N, [('object_params.get("unset_mode_images", object_params["unset_mode"])[0]', 'object_params.get("unset_mode_images", object_params["unset_mode_vms"])[0]')],
+                          "refused", "another default key: not the atom"),
+    # ---- TestNode.default_run_decision (C10, defaultRunDecision_matches_source)
+    "run-and-for-or": ("rules", N, [("should_run = len(self.shared_results) == 0 or self.should_rerun(worker)", "should_run = len(self.shared_results) == 0 and self.should_rerun(worker)")],
+                       "proof-breaks", "a stateless node without results is not run"),
+    "run-eager-rerun": ("rules", N, [("            should_run = len(self.shared_results) == 0 or self.should_rerun(worker)\n", "            again = self.should_rerun(worker)\n            should_run = len(self.shared_results) == 0 or again\n")],
+                        "proof-breaks", "should_rerun evaluated (and possibly raising) although there are no results"),
+    "run-scan-when-finished": ("rules", N, [("            should_scan = not self.is_finished(worker, 1)", "            should_scan = self.is_finished(worker, 1)")],
+                               "proof-breaks", "the pool is scanned when the node IS finished"),
+    "run-disable-always": ("rules", N, [("            if len(self.shared_filtered_results) == 0 and not should_run_from_scan:", "            if len(self.shared_filtered_results) == 0 or not should_run_from_scan:")],
+                           "proof-breaks", "retries switched off also when results exist"),
+    "run-disable-dropped": ("rules", N, [("                self.should_rerun = lambda _: False\n", "                pass\n")],
+                            "refused", "the pinned statement no longer occurs"),
+    "run-disable-true": ("rules", N, [("                self.should_rerun = lambda _: False\n", "                self.should_rerun = lambda _: True\n")],
+                         "refused", "another replacement of should_rerun (attribute store outside the pin)"),
+    "run-rerun-first": ("rules", N, [("            should_run = should_run or self.should_rerun(worker)", "            should_run = self.should_rerun(worker) or should_run")],
+                        "proof-breaks", "should_rerun evaluated before the scan result is looked at (another error behaviour)"),
+    # ---- TransferOps.download / upload / delete (C14, download_matches_source ...)
+    "dispatch-link-keeps-semicolon": ("transfer", P, [('            cls.download_link(cache_path, path.replace(";", ""), params)', '            cls.download_link(cache_path, path, params)')],
+                                      "proof-breaks", "link mode hands the path with its `;` on"),
+    "dispatch-local-for-link": ("transfer", P, [('            cls.upload_link(cache_path, path.replace(";", ""), params)', '            cls.upload_local(cache_path, path.replace(";", ""), params)')],
+                                "proof-breaks", "upload in link mode goes to upload_local (a link could be uploaded)"),
+    "dispatch-remote-test": ("transfer", P, [('        if hosts != "":\n            cls.delete_remote(pool_path, params)', '        if hosts == "":\n            cls.delete_remote(pool_path, params)')],
+                             "proof-breaks", "local locations treated as remote in delete"),
+    "dispatch-whole-location": ("transfer", P, [('            cls.download_local(cache_path, path, params)', '            cls.download_local(cache_path, pool_path, params)')],
+                                "proof-breaks", "the whole `hosts:path` string handed to download_local"),
+    "dispatch-link-marker": ("transfer", P, [('        elif ";" in path:\n            cls.download_link', '        elif "," in path:\n            cls.download_link')],
+                             "proof-breaks", "another link marker"),
+    "dispatch-partition": ("transfer", P, [('        hosts, path = pool_path.split(":")\n        if hosts != "":\n            cls.download_remote', '        hosts, _, path = pool_path.partition(":")\n        if hosts != "":\n            cls.download_remote')],
+                           "refused", "partition instead of split (no ValueError for extra colons): not an atom"),
 }
 
 TARGET = {"tunnel": ("GenTunnel.lean", "I2N.Props.C19"), "scope": ("GenScope.lean", "I2N.Props.C04"),
-          "travlib": ("GenScope.lean", "I2N.Props.C04"), "pool": ("GenPool.lean", "I2N.Props.C13")}
+          "travlib": ("GenScope.lean", "I2N.Props.C04"), "pool": ("GenPool.lean", "I2N.Props.C13"),
+          "rules": ("GenRules.lean", "I2N.Props.C10"), "transfer": ("GenTransfer.lean", "I2N.Props.C14"),
+          "clean": ("GenClean.lean", "I2N.Props.C05")}
 
 
 def source_of(target, path):
@@ -99,6 +228,12 @@ def source_of(target, path):
         return pygen.scope_source(node_path=path)
     if target == "travlib":
         return pygen.scope_source(travlib_path=path)
+    if target == "rules":
+        return pygen.rules_source(path)
+    if target == "transfer":
+        return pygen.transfer_source(path)
+    if target == "clean":
+        return pygen.clean_source(path)
     return pygen.pool_source(path)
 
 
@@ -132,7 +267,11 @@ def restore():
     pygen.extract_tunnel()
     pygen.extract_scope()
     pygen.extract_pool()
-    ok, log = vlib.lake_build(["I2N.Props.C19", "I2N.Props.C04", "I2N.Props.C13"])
+    pygen.extract_rules()
+    pygen.extract_transfer()
+    pygen.extract_clean()
+    ok, log = vlib.lake_build(["I2N.Props.C19", "I2N.Props.C04", "I2N.Props.C13", "I2N.Props.C10", "I2N.Props.C14",
+                               "I2N.Props.C05"])
     if not ok:
         raise RuntimeError("the restored generated files do not build: " + log[-500:])
 
